@@ -195,6 +195,13 @@ let handle line =
           (match k with None -> "~" | Some f -> tok_of_str f) ^ ":" ^
           String.concat ";" (List.map (fun (n, al) -> tok_of_str n ^ "=" ^ (match al with None -> "~" | Some a -> tok_of_str a)) names))
         (dump_lines s))
+  | ["uniq"; camel; name; taken] ->
+      let tk = strs_of_tok taken in
+      (match get_unique_name (nat_of_int (List.length tk + 1)) (bool_of_tok camel) (str_of_tok name) tk with
+       | Some r -> tok_of_str r | None -> "FUEL")
+  | ["relpath"; b; t] ->
+      let (p, c) = grp (str_of_tok b) (str_of_tok t) false in
+      string_of_int (int_of_nat p) ^ "\t" ^ tok_of_str c
   | ["c2s"; s] -> tok_of_str (camel_to_snake u0 (str_of_tok s))
   | ["s2uc"; d; s] -> tok_of_str (s2uc u0 (n_of_int (int_of_string d)) (str_of_tok s))
   | _ -> "BADREQ"
